@@ -184,6 +184,16 @@ def duplicateEntry : Layer → Layer → Bool
   | _, [] => false
   | done, e :: rest => (done.any fun x => x.p == e.p && x.wh == e.wh) || duplicateEntry (done ++ [e]) rest
 
+/-- `e` repeats the earlier entry `x` of the same tar: same path, same whiteout-ness (as in `duplicateEntry`) -/
+def repeats (x e : Entry) : Bool := x.p == e.p && x.wh == e.wh
+
+/-- the tar read as "the first entry of a name counts": every entry that repeats an earlier one is left out.  What the
+loader does with duplicate member names (known finding C04/same-layer-duplicate-first-wins; a tar extraction keeps the
+last) -/
+def dedupFirst : Layer → Layer → Layer
+  | _, [] => []
+  | done, e :: rest => if done.any (fun x => repeats x e) then dedupFirst (done ++ [e]) rest else e :: dedupFirst (done ++ [e]) rest
+
 /-- entries beneath a path the same tar whites out (finding 30) -/
 def whiteoutWithChildren (l : Layer) : Bool := l.any fun b => b.wh && l.any fun e => isUnder b.p e.p
 
